@@ -22,6 +22,12 @@ CHECKS = {
     "C02": ("proof: Lean theorems over the reals (accept_iff_min, canonical/hamiltonian/isobaric/isotension_textbook, isotension_hydrostatic, gc_prefactor_closed, gc_insert/delete_textbook, debroglie_def, evaluate_total, favourable_accepted, setter_next_trial_*) on a Num-generic model of every criteria.evaluate; tied to the code by decisions of the real evaluate on real contexts at uniform numbers 1e-6 either side of the textbook threshold",
             "§6 C02", "Lean 4 theorems over the reals on a model shared with the Float driver + differential decision correspondence and an independent log-space textbook oracle",
             "IEEE rounding of the exponent not verified (decisions compared 1e-6 from the threshold); isotension strain = the matrix the code computes; |delta|=2 only checked for no-raise and model agreement"),
+    "C15": ("proof: Lean theorems over all observer lists/intervals/step counts/split lists (positive_interval_calls, negative_interval_once, header_once_before_rows, split_run, split_many, entry_points_agree, exact_steps) on a hand-written model of Driver.irun/call_observers/run/srun with eager and lazy step; witness split_run_coded_false for the unfixed loop; tied to Canonical/GrandCanonical/ForceBias by differential runs over all compositions of n<=7 (quick) with zero-length segments, all entry points",
+            "§6 C15", "Lean 4 induction over the run loop + differential correspondence and split-vs-unsplit oracle on the real drivers",
+            "simulation step and validate_simulation are abstract functions (hypothesis ValidateStable for the split theorems, checked on every case)"),
+    "C16": ("proof: Lean theorems on a buffered-file machine (disk/pending/position/O_APPEND) for the Logger/Trajectory/Restart op protocols at every cut and every crash image (log_after_call, log_crash_prefix, traj_after_call, traj_crash_prefix, restart_after_call, restart_crash_loadable_partial, restart_crash_window; restart_crash_loadable_false by witness = known finding), tied to the code by instrumented real files in GrandCanonical runs (protocol conformance, file semantics after every op, every op index as crash point)",
+            "§6 C16", "Lean 4 induction over op sequences + instrumented-file correspondence and crash-image oracle (ase.io.read / read_json on real bytes)",
+            "process-crash model: disk = visible bytes + a prefix of the user-space buffer; fsync/power loss out of scope; 'loadable' = image is a completed document (model) / read_json succeeds and matches a saved state (oracle)"),
 }
 
 NOT_APPLICABLE = {}
